@@ -44,7 +44,7 @@ def cases(tier, seed):
     rng = np.random.default_rng([seed, 909])
     n = 150 if tier == "quick" else 12000
     for i in range(n):
-        yield {"mesh": gen.random_mesh(rng, 60 if tier == "quick" else 220), "source": ["topology", "topology_edges", "mpas"][i % 3],
+        yield {"mesh": gen.random_mesh(rng, 60 if tier == "quick" else 220, families=gen.ALL_FAMILIES), "source": ["topology", "topology_edges", "mpas"][i % 3],
                "sseed": int(rng.integers(0, 10**6)), "nsel": 5, "threads": bool(i % 4 == 0)}
 
 
